@@ -129,7 +129,22 @@ func LoadEngine(repoDir string, patterns []string, contractDirs []string, prelud
 		}
 		for _, gf := range p.GoFiles {
 			if strings.HasSuffix(gf, "zz_contracts_verif.go") {
-				if err := e.contracts.ParseContractFile(gf, p.PkgPath); err != nil {
+				// package names are resolved through the package's own imports
+				saved := e.contracts.Imports
+				local := map[string]string{}
+				for k, v := range saved {
+					local[k] = v
+				}
+				for _, imp := range p.Types.Imports() {
+					local[imp.Name()] = imp.Path()
+				}
+				for path, ip := range p.Imports {
+					local[ip.Name] = path
+				}
+				e.contracts.Imports = local
+				err := e.contracts.ParseContractFile(gf, p.PkgPath)
+				e.contracts.Imports = saved
+				if err != nil {
 					return nil, err
 				}
 			}
